@@ -24,7 +24,6 @@ type profile struct {
 	check      string
 	runsMin    int
 	runsMax    int
-	bases      int     // base histories in the quick tier
 	pDestroy   float64 // per run (after run 0 for multi-run profiles)
 	pNoPrune   float64
 	dry        []Dry // drawn uniformly
@@ -41,30 +40,38 @@ type profile struct {
 	pIdentical float64 // a run repeats the previous run's objects and options
 	pCRD       float64
 	pAlias     float64 // two live objects share a uid
+	pKeep      float64 // live objects with a deletion-prevention annotation (default 0.15)
 }
 
 var profiles = map[string]profile{
-	"C01": {name: "C01", runsMin: 1, runsMax: 2, bases: 16, pDestroy: 0.3, pNoPrune: 0.3, dry: []Dry{DNone, DNone, DNone, DNone, DNone, DClient, DServer},
-		pSSA: 0.2, pInvalid: 0.2, pBadGraph: 0.1, pLiveBad: 0.15, pDeps: 0.2, varied: true, pTimeouts: 0.3, faults: "enum", pCRD: 0.1, pAlias: 0.04},
-	"C02": {name: "C02", runsMin: 1, runsMax: 2, bases: 110, pDestroy: 0.4, pNoPrune: 0.1, dry: []Dry{DNone},
-		pSSA: 0.2, pInvalid: 0.05, pBadGraph: 0.03, pLiveBad: 0.05, pDeps: 0.1, varied: true, pTimeouts: 0.2, faults: "none", pAlias: 0.12},
-	"C03": {name: "C03", runsMin: 2, runsMax: 4, bases: 60, pDestroy: 0.25, pNoPrune: 0.15, dry: []Dry{DNone},
+	"C01": {name: "C01", runsMin: 1, runsMax: 2, pDestroy: 0.3, pNoPrune: 0.3, dry: []Dry{DNone, DNone, DNone, DNone, DNone, DClient, DServer},
+		pSSA: 0.2, pInvalid: 0.2, pBadGraph: 0.1, pLiveBad: 0.15, pDeps: 0.2, varied: true, pTimeouts: 0.3, faults: "enum", pCRD: 0.1, pKeep: 0.3},
+	"C02": {name: "C02", runsMin: 1, runsMax: 2, pDestroy: 0.4, pNoPrune: 0.1, dry: []Dry{DNone},
+		pSSA: 0.2, pInvalid: 0.05, pBadGraph: 0.03, pLiveBad: 0.05, pDeps: 0.1, varied: true, pTimeouts: 0.2, faults: "none", pAlias: 0.12, pKeep: 0.35},
+	"C03": {name: "C03", runsMin: 2, runsMax: 4, pDestroy: 0.25, pNoPrune: 0.15, dry: []Dry{DNone},
 		pSSA: 0.2, pInvalid: 0.05, pBadGraph: 0.03, pLiveBad: 0.03, pDeps: 0.15, varied: false, pTimeouts: 0.1, faults: "none", pIdentical: 0.35, pCRD: 0.1, pAlias: 0.03},
-	"C04": {name: "C04", runsMin: 1, runsMax: 2, bases: 100, pDestroy: 0.0, pNoPrune: 0.2, dry: []Dry{DNone, DNone, DNone, DNone, DClient},
+	"C04": {name: "C04", runsMin: 1, runsMax: 2, pDestroy: 0.0, pNoPrune: 0.2, dry: []Dry{DNone, DNone, DNone, DNone, DClient},
 		pSSA: 0.15, pInvalid: 0.15, pBadGraph: 0.12, pLiveBad: 0.05, pDeps: 0.5, varied: true, pTimeouts: 0.5, faults: "one", pCRD: 0.25},
-	"C05": {name: "C05", runsMin: 1, runsMax: 2, bases: 100, pDestroy: 0.5, pNoPrune: 0.0, dry: []Dry{DNone, DNone, DNone, DNone, DClient},
-		pSSA: 0.1, pInvalid: 0.05, pBadGraph: 0.05, pLiveBad: 0.12, pDeps: 0.5, varied: true, pTimeouts: 0.5, faults: "one", pCRD: 0.25, pAlias: 0.05},
-	"C10": {name: "C10", runsMin: 1, runsMax: 3, bases: 90, pDestroy: 0.3, pNoPrune: 0.15, dry: []Dry{DNone, DClient, DClient, DServer, DServer},
+	"C05": {name: "C05", runsMin: 1, runsMax: 2, pDestroy: 0.5, pNoPrune: 0.0, dry: []Dry{DNone, DNone, DNone, DNone, DClient},
+		pSSA: 0.1, pInvalid: 0.05, pBadGraph: 0.05, pLiveBad: 0.12, pDeps: 0.5, varied: true, pTimeouts: 0.5, faults: "one", pCRD: 0.25, pKeep: 0.25},
+	"C10": {name: "C10", runsMin: 1, runsMax: 3, pDestroy: 0.3, pNoPrune: 0.15, dry: []Dry{DNone, DClient, DClient, DServer, DServer},
 		pSSA: 0.5, pInvalid: 0.1, pBadGraph: 0.05, pLiveBad: 0.05, pDeps: 0.2, varied: false, pTimeouts: 0.1, faults: "none"},
-	"C11": {name: "C11", runsMin: 1, runsMax: 2, bases: 110, pDestroy: 0.35, pNoPrune: 0.15, dry: []Dry{DNone, DNone, DNone, DClient},
+	"C11": {name: "C11", runsMin: 1, runsMax: 2, pDestroy: 0.35, pNoPrune: 0.15, dry: []Dry{DNone, DNone, DNone, DClient},
 		pSSA: 0.15, pInvalid: 0.7, pBadGraph: 0.45, pLiveBad: 0.4, pDeps: 0.35, varied: false, pTimeouts: 0.1, faults: "none", pCRD: 0.15},
-	"C12": {name: "C12", runsMin: 1, runsMax: 2, bases: 90, pDestroy: 0.3, pNoPrune: 0.1, dry: []Dry{DNone},
-		pSSA: 0.15, pInvalid: 0.05, pBadGraph: 0.03, pLiveBad: 0.03, pDeps: 0.3, varied: true, pTimeouts: 0.6, faults: "none", pCancel: 0.6, pWatchErr: 0.1},
-	"C13": {name: "C13", runsMin: 1, runsMax: 3, bases: 60, pDestroy: 0.3, pNoPrune: 0.2, dry: []Dry{DNone, DNone, DNone, DNone, DClient, DServer},
-		pSSA: 0.2, pInvalid: 0.25, pBadGraph: 0.15, pLiveBad: 0.1, pDeps: 0.3, varied: true, pTimeouts: 0.4, faults: "pairs", pCancel: 0.2, pWatchErr: 0.15, pCRD: 0.1, pAlias: 0.04},
+	"C12": {name: "C12", runsMin: 1, runsMax: 2, pDestroy: 0.3, pNoPrune: 0.1, dry: []Dry{DNone},
+		pSSA: 0.15, pInvalid: 0.05, pBadGraph: 0.03, pLiveBad: 0.03, pDeps: 0.3, varied: true, pTimeouts: 0.6, faults: "none", pCancel: 0.6, pWatchErr: 0.2},
+	"C13": {name: "C13", runsMin: 1, runsMax: 3, pDestroy: 0.3, pNoPrune: 0.2, dry: []Dry{DNone, DNone, DNone, DNone, DClient, DServer},
+		pSSA: 0.2, pInvalid: 0.25, pBadGraph: 0.15, pLiveBad: 0.1, pDeps: 0.3, varied: true, pTimeouts: 0.4, faults: "pairs", pCancel: 0.25, pWatchErr: 0.3, pCRD: 0.1, pKeep: 0.25},
 }
 
 func chance(r *rand.Rand, p float64) bool { return r.Float64() < p }
+
+func (p profile) keepProb() float64 {
+	if p.pKeep > 0 {
+		return p.pKeep
+	}
+	return 0.15
+}
 
 // enableCRD switches the CRD + custom resource entries on.
 var enableCRD = os.Getenv("VERIF_PIPELINE_NO_CRD") != "1"
@@ -168,11 +175,14 @@ func genCluster(r *rand.Rand, p profile, u Universe) Cluster {
 		default:
 			o.Owner = OOther
 		}
-		o.Keep = chance(r, 0.15)
+		o.Keep = chance(r, p.keepProb())
 		if chance(r, p.pLiveBad) {
 			o.BadDep = true
 		} else if chance(r, p.pDeps) {
 			d := r.Intn(len(u))
+			if len(c.Objs) > 0 && chance(r, 0.7) {
+				d = c.Objs[r.Intn(len(c.Objs))].ID // a live object: the edge matters for prune / destroy order
+			}
 			if d != i {
 				o.Deps = []int{d}
 			}
@@ -452,11 +462,17 @@ func genEnv(r *rand.Rand, p profile, o Opts, cur Cluster, probe RunResult) Env {
 		env.Waits = append(env.Waits, genWait(r, base, prune, timeoutOn, p.varied))
 	}
 	if chance(r, p.pCancel) {
-		var targets []int
+		var targets, dels []int
 		for _, a := range probe.Addrs {
 			if a.Kind == "FApply" || a.Kind == "FDelete" {
 				targets = append(targets, a.I)
 			}
+			if a.Kind == "FDelete" {
+				dels = append(dels, a.I)
+			}
+		}
+		if len(dels) > 0 && chance(r, 0.5) {
+			targets = dels
 		}
 		switch k := r.Intn(10); {
 		case k < 2:
@@ -606,6 +622,16 @@ func orderDependent(u Universe, cur Cluster, sc Scenario) bool {
 	return false
 }
 
+// wellFormed: a stored inventory lives in a namespace whose Namespace object
+// (when it is part of the universe) exists. The fake server, like the model,
+// does not check namespaces on create, so a run can leave such a cluster
+// behind (the inventory namespace was invalid or failed to apply); no further
+// run is started from it.
+func wellFormed(u Universe, c Cluster) bool {
+	n := u.InvNs()
+	return !c.HasInv || n < 0 || c.Find(n) != nil
+}
+
 // ---- collecting -------------------------------------------------------------------------------
 
 type collector struct {
@@ -619,6 +645,8 @@ type collector struct {
 	execTime  time.Duration
 	baseG     int
 	checkBoth bool
+	thorough  bool
+	results   []RunResult // kept to look for late requests at the end
 }
 
 // run executes a scenario on the store; with checkBoth it is first executed
@@ -633,6 +661,10 @@ func (c *collector) run(st *Store, sc Scenario) RunResult {
 	res := ExecRun(st, sc)
 	c.execTime += time.Since(t0)
 	c.runs++
+	c.results = append(c.results, res)
+	if first != nil {
+		c.results = append(c.results, *first)
+	}
 	if first != nil && first.Out.Coq() != res.Out.Coq() {
 		// a third execution is not possible on the same state; report both
 		c.flaky = append(c.flaky, fmt.Sprintf("%s\n   A: %s\n   B: %s", sc.Text(), first.Out.Text(), res.Out.Text()))
@@ -676,6 +708,12 @@ func (c *collector) count(sc Scenario, res RunResult) {
 		s.Count("cancel:before-sync")
 	case CDuringReq:
 		s.Count("cancel:during-request")
+		for _, it := range res.Out.Trace {
+			if strings.HasPrefix(it.Text, fmt.Sprintf("REQ RDelete %d ", sc.Env.Cancel.I)) {
+				s.Count("cancel:during-delete-request")
+				break
+			}
+		}
 	}
 	if sc.Env.WatchErrAt >= 0 {
 		s.Count("watcher-error")
@@ -723,9 +761,11 @@ func (c *collector) add(h History) {
 // environment is derived from the probe (everything reconciles) plus the
 // given faults.
 type fixedRun struct {
-	local  []LObj
-	opts   Opts
-	faults []FAddr
+	local    []LObj
+	opts     Opts
+	faults   []FAddr
+	cancel   CancelPt
+	watchErr int // wait index + 1 (0 = none)
 }
 
 func (c *collector) fixedHistory(u Universe, init Cluster, runs []fixedRun) {
@@ -735,7 +775,7 @@ func (c *collector) fixedHistory(u Universe, init Cluster, runs []fixedRun) {
 		sc := Scenario{Univ: u, Local: fr.local, Opts: fr.opts}
 		probe := Probe(st, sc)
 		c.probes++
-		sc.Env = Env{WatchErrAt: -1, Waits: probe.Waits, Faults: fr.faults}
+		sc.Env = Env{WatchErrAt: fr.watchErr - 1, Waits: probe.Waits, Faults: fr.faults, Cancel: fr.cancel}
 		res := c.run(st, sc)
 		c.count(sc, res)
 		h.Runs, h.Outs = append(h.Runs, sc), append(h.Outs, res.Out)
@@ -782,6 +822,25 @@ func (c *collector) corpus() {
 	c.fixedHistory(u3, Cluster{NextUID: 100}, []fixedRun{{local: both, opts: Opts{Prune: true, Policy: PAdoptAll},
 		faults: []FAddr{{Kind: "FGet", I: 0, N: 0}}},
 		{local: both, opts: Opts{Prune: true, Policy: PAdoptAll}}})
+	// 7. deletion-prevention: prune and destroy of keep-annotated objects (owned / unowned), and the
+	// annotation-removal update rejected
+	keepers := Cluster{NextUID: 100, HasInv: true, Inv: []int{0, 1}, Objs: []CObj{
+		CObj{ID: 0, UID: 1, Owner: OOurs, Keep: true, Ver: 1}.Applied(), CObj{ID: 1, UID: 2, Owner: OOurs, Ver: 1}.Applied()}}
+	c.fixedHistory(u, keepers, []fixedRun{{local: []LObj{{ID: 1, Ver: 1}}, opts: Opts{Prune: true, Policy: PMustMatch}},
+		{local: []LObj{{ID: 0, Ver: 1}, {ID: 1, Ver: 1}}, opts: Opts{Prune: true, Policy: PAdoptIfNoInventory}}})
+	c.fixedHistory(u, keepers, []fixedRun{{local: []LObj{{ID: 1, Ver: 1}}, opts: Opts{Prune: true, Policy: PMustMatch},
+		faults: []FAddr{{Kind: "FUpdate", I: 0}}}})
+	c.fixedHistory(u, keepers, []fixedRun{{opts: Opts{Destroy: true, Prune: true, Policy: PMustMatch}}})
+	c.fixedHistory(u, keepers, []fixedRun{{opts: Opts{Destroy: true, Prune: true, Policy: PMustMatch}, faults: []FAddr{{Kind: "FUpdate", I: 0}}}})
+	unowned := Cluster{NextUID: 100, HasInv: true, Inv: []int{0, 1}, Objs: []CObj{
+		{ID: 0, UID: 1, Owner: ONone, Keep: true, Ver: 1}, CObj{ID: 1, UID: 2, Owner: OOther, Keep: true, Ver: 1}.Applied()}}
+	c.fixedHistory(u, unowned, []fixedRun{{opts: Opts{Destroy: true, Prune: true, Policy: PAdoptAll}}})
+	// 8. cancellation while a delete request is served; watcher failure while waiting
+	c.fixedHistory(u, two, []fixedRun{{opts: Opts{Destroy: true, Prune: true, Policy: PMustMatch}, cancel: CancelPt{Kind: CDuringReq, I: 1}}})
+	c.fixedHistory(u, two, []fixedRun{{local: []LObj{{ID: 0, Ver: 1}}, opts: Opts{Prune: true, Policy: PMustMatch}, cancel: CancelPt{Kind: CDuringReq, I: 1}}})
+	c.fixedHistory(u, Cluster{NextUID: 100}, []fixedRun{{local: []LObj{{ID: 0, Ver: 1}, {ID: 1, Ver: 1, Deps: []int{0}}},
+		opts: Opts{Prune: true, Policy: PMustMatch}, watchErr: 1}})
+	c.fixedHistory(u, two, []fixedRun{{opts: Opts{Destroy: true, Prune: true, Policy: PMustMatch}, watchErr: 1}})
 	// a plain round trip: apply two, apply one (prune), destroy
 	c.fixedHistory(u, Cluster{NextUID: 100}, []fixedRun{
 		{local: []LObj{{ID: 0, Ver: 1}, {ID: 1, Ver: 1, Deps: []int{0}}}, opts: Opts{Prune: true, Policy: PMustMatch}},
@@ -807,6 +866,10 @@ func (c *collector) base(r *rand.Rand, p profile, budget *int) {
 		sc := Scenario{Univ: u}
 		cur := st.Observe()
 		st.notes = nil
+		if !wellFormed(u, cur) {
+			c.sum.Count("history-ended:inventory-in-missing-namespace")
+			break
+		}
 		if prev != nil && chance(r, p.pIdentical) {
 			sc.Local, sc.Opts = prev.Local, prev.Opts
 		} else {
@@ -865,6 +928,19 @@ func (c *collector) variants(r *rand.Rand, p profile, st *Store, h History, sc S
 			sets = sets[:40]
 		}
 	}
+	if !c.thorough && len(sets) > 8 {
+		// quick tier: eight variants per base, least exercised address kinds first
+		r.Shuffle(len(sets), func(i, j int) { sets[i], sets[j] = sets[j], sets[i] })
+		weight := func(fs []FAddr) int {
+			w := 0
+			for _, f := range fs {
+				w += c.sum.Distribution["fault:"+f.Kind]
+			}
+			return w
+		}
+		sort.SliceStable(sets, func(i, j int) bool { return weight(sets[i]) < weight(sets[j]) })
+		sets = sets[:8]
+	}
 	for _, fs := range sets {
 		if *budget <= 0 {
 			return
@@ -884,7 +960,7 @@ func (c *collector) variants(r *rand.Rand, p profile, st *Store, h History, sc S
 			c.sum.Count("variant:from-observed-cluster")
 		}
 		// a fault-free follow-up run with the same objects shows the recovery
-		if chance(r, 0.4) && *budget > 0 {
+		if chance(r, 0.4) && *budget > 0 && wellFormed(h.Univ, cs.Observe()) {
 			f := sc
 			pr := Probe(cs, f)
 			c.probes++
@@ -915,7 +991,8 @@ func runProfile(p profile, seed int64, tier, outDir string) (*emit.Summary, erro
 	quietKlog()
 	r := rand.New(rand.NewSource(seed))
 	sum := emit.NewSummary(p.name, seed, tier)
-	c := &collector{prop: p.name, sum: sum, checkBoth: tier != "thorough" || os.Getenv("VERIF_PIPELINE_TWICE") == "1"}
+	c := &collector{prop: p.name, sum: sum, thorough: tier == "thorough",
+		checkBoth: tier != "thorough" || os.Getenv("VERIF_PIPELINE_TWICE") == "1"}
 	// warm-up: the first run starts process-wide background goroutines (klog, …)
 	{
 		u := NewUniverse([]UEntry{Entry("ConfigMap", invNS, "cm-a")})
@@ -938,6 +1015,9 @@ func runProfile(p profile, seed int64, tier, outDir string) (*emit.Summary, erro
 	time.Sleep(100 * time.Millisecond)
 	if n, ok := settleGoroutines(c.baseG, 200*time.Millisecond); !ok {
 		c.failures = append(c.failures, fmt.Sprintf("goroutine leak at the end: %d goroutines, %d at the start", n, c.baseG))
+	}
+	for _, res := range c.results {
+		c.failures = append(c.failures, res.LateRequests()...)
 	}
 
 	var terms []string
